@@ -27,6 +27,7 @@ from __future__ import annotations
 
 import ast
 import itertools
+import re
 from fractions import Fraction
 
 from .poly import Poly, Rat, _r
@@ -455,6 +456,8 @@ class TenSym(PySym):
         v = self.ex(n)
         if v is None:
             return None
+        if isinstance(v, slice):
+            return v
         if isinstance(v, (list, tuple)):
             return [self.concrete(x) for x in v]
         if isinstance(v, Ten):
@@ -488,6 +491,9 @@ class TenSym(PySym):
                 return d
             base = self.ex(n.value)
             if isinstance(base, Obj):
+                gt = base.__dict__.get("_getters")
+                if gt and n.attr in gt:
+                    return gt[n.attr](base)         # a property of the modelled class
                 if not hasattr(base, n.attr):
                     if getattr(base, "_lenient", False) and n.attr.startswith("_"):
                         return None         # a private field the model does not know: as on a fresh object
@@ -715,9 +721,9 @@ class TenSym(PySym):
                     return t.reshape([-1])
                 raise Unsupported("array method %s" % m)
             if isinstance(recv, Obj):
-                f = getattr(recv, m, None)
+                f = getattr(recv, "_ctor", None) if m == "__class__" else getattr(recv, m, None)
                 if callable(f):
-                    return f(*[self.pyval(self.ex(a)) for a in n.args])
+                    return f(*[self.pyval(self.ex(a)) for a in n.args], **{k.arg: self.pyval(self.ex(k.value)) for k in n.keywords if k.arg})
                 raise Unsupported("method %s of a model object" % m)
             if isinstance(recv, list) and m in ("append", "extend"):
                 v = self.ex(n.args[0])
@@ -842,7 +848,33 @@ class TenSym(PySym):
                 y = [b.at(list(multi) + [k]) for k in range(3)]
                 out += [x[1] * y[2] - x[2] * y[1], x[2] * y[0] - x[0] * y[2], x[0] * y[1] - x[1] * y[0]]
             return Ten(sh, out)
-        if cn in ("np.vstack", "np.stack", "np.hstack", "np.dstack", "np.column_stack", "np.concatenate"):
+        if cn in ("np.atleast_1d",):
+            t = self.to_ten(A(0))
+            return t if t.ndim >= 1 else t.reshape([1])
+        if cn in ("np.concatenate", "np.hstack") :
+            items = [self.to_ten(x) for x in self.iterate(A(0))]
+            if not items:
+                raise ShapeError("need at least one array to concatenate")
+            axis = self.concrete(self.kw(n, "axis", 1, 0)) if cn == "np.concatenate" else (0 if items[0].ndim == 1 else 1)
+            axis %= items[0].ndim
+            ref = items[0].shape
+            for it in items[1:]:
+                if it.ndim != len(ref) or any(it.shape[k] != ref[k] for k in range(len(ref)) if k != axis):
+                    raise ShapeError("arrays of shapes %s cannot be concatenated along axis %d" % ([i.shape for i in items], axis))
+            shape = list(ref)
+            shape[axis] = sum(i.shape[axis] for i in items)
+            out = []
+            for multi in itertools.product(*[range(s_) for s_ in shape]):
+                k = multi[axis]
+                for it in items:
+                    if k < it.shape[axis]:
+                        m2 = list(multi)
+                        m2[axis] = k
+                        out.append(it.at(m2))
+                        break
+                    k -= it.shape[axis]
+            return Ten(shape, out)
+        if cn in ("np.vstack", "np.stack", "np.dstack", "np.column_stack"):
             items = [self.to_ten(x) for x in A(0)]
             if cn in ("np.vstack",) or (cn == "np.stack" and self.concrete(self.kw(n, "axis", 1, 0)) == 0):
                 items = [i.reshape([1, -1]) if i.ndim == 1 and cn == "np.vstack" else i for i in items]
@@ -921,6 +953,10 @@ class TenSym(PySym):
                 return False
             if isinstance(v, Ten):
                 return "ndarray" in tn
+            if isinstance(v, Obj):
+                return any(c in getattr(v, "_isa", ()) for c in re.findall(r"\w+", tn))
+            if isinstance(v, (int, slice)) and not isinstance(v, bool):
+                return ("int" in tn and isinstance(v, int)) or ("slice" in tn and isinstance(v, slice))
             raise Unsupported("isinstance on a symbolic value")
         if cn in ("ensure_type",):
             return A(0)
@@ -1068,7 +1104,11 @@ class TenSym(PySym):
             base = self.ex(target.value)
             if not isinstance(base, Obj):
                 raise Unsupported("attribute store on %s" % type(base).__name__)
-            setattr(base, target.attr, v)
+            st_ = base.__dict__.get("_setters")
+            if st_ and target.attr in st_:
+                st_[target.attr](base, v)           # a property setter of the modelled class
+            else:
+                setattr(base, target.attr, v)
         else:
             raise Unsupported("assignment target %s" % src(target))
 
